@@ -416,12 +416,24 @@ pub fn run(prop: &'static str, tier: Tier, seed: u64, findings: &Findings) -> i3
     report.merge(super::run_regress(&check, &cfg, findings));
     let cases = tier.pick(200_000, 8_000_000);
     report.merge(engine::run_generated(&check, &cfg, cases, 16, 16, findings, 0));
+    let mut assumptions: Vec<String> = vec!["cssparser tokenizer".into(), "sourcemap crate decoder".into(), "expected sheets derived from the generator's model".into()];
+    if prop == "C19" {
+        // coverage-guided stage on arbitrary stylesheets: source positions inside the source, destination order
+        super::fuzz_stage::replay_regress("wxss_map", "C19", &mut report);
+        if tier == Tier::Thorough && report.violations.is_empty() {
+            let t = super::fuzz_stage::FuzzTarget { name: "wxss_map", corpus_kind: "wxss", runs: 8_000_000, max_len: 600 };
+            if let Err(e) = super::fuzz_stage::campaign(&t, "C19", seed, &mut report) {
+                report.errors.push(e);
+            }
+        }
+        assumptions.push("thorough tier: a libFuzzer campaign (cargo-fuzz target wxss_map) checks on arbitrary text that every source-map token of both outputs points inside the source (CSS line breaks: LF, CRLF, CR, FF) and that destination positions never decrease".into());
+    }
     let rule = match prop {
         "C17" => "cases = generated stylesheets with `:host {}` rules at at-rule depth 0-3 interleaved with ordinary rules, `:host(...)` and `:host .a` combinations x {convert_host, class_prefix, host_is}. Oracle: the model is partitioned into an expected normal sheet (every non-host rule in order inside its at-rules) and an expected low-priority sheet (each pure :host rule as `[wx-host=\"P\"]` (+`,[is=\"H\"]`) wrapped in the same at-rule chain); both outputs are re-tokenised and aligned with them (declarations transformed as elsewhere); combinations are in neither output and each produces a warning; with conversion off the low-priority output is empty. non-trivial = a converted :host rule at at-rule depth >= 2; distinct by source.",
         "C18" => "cases = generated stylesheets with @import in string / url(\"..\") / url(..) form, paths with quotes, `*/`, spaces, percent signs, line breaks and non-ASCII, optional layer / layer(x) / supports(..) / media conditions, leading and trailing positions x import_sign on/off. Oracle: with a sign, at the import's place the output has exactly one comment `sign <enc>` with percent_decode(enc) == path, wrapped (outer to inner) in @layer, @supports, @media blocks token-equal to the conditions; late imports are flagged; without a sign the at-rule passes through token-equal. non-trivial = sheet with an import; distinct by source.",
         _ => "cases = generated stylesheets with multi-line input, multi-byte characters and all rewrite kinds. Oracle: for every output token aligned with its model token there is a source-map entry whose generated column is the token's UTF-16 column and whose source line/column is where the printer put that model token (a closing bracket may map to its opening bracket); prefixed classes and converted rpx values carry their original spelling as name; entries are in output order; the map read back from its JSON equals the extracted one. non-trivial = multi-line, non-ASCII source; distinct by source.",
     };
-    engine::finish(Finish { cfg, report, rule: rule.into(), assumptions: vec!["cssparser tokenizer".into(), "sourcemap crate decoder".into(), "expected sheets derived from the generator's model".into()], started, exhaustive: false }, findings)
+    engine::finish(Finish { cfg, report, rule: rule.into(), assumptions, started, exhaustive: false }, findings)
 }
 
 pub fn replay(prop: &'static str, v: &Value, path: &str, findings: &Findings) -> i32 {
